@@ -288,6 +288,49 @@ def check(ctx, run):
     # call just made only if actualCall retires the previous one on every route (shared with C08.R11)
     from .C08 import actualcall_routing_rule
     actualcall_routing_rule(prog, run, "R4")
+    # every custom type gets an adaptor of its own that holds exactly the C functions installed for THAT type, whatever was installed
+    # before (the C++ repository keeps a reference to the adaptor: it must not be shared with, or changed by, another installation)
+    from .shared import member_by_type
+    for fname, cxx, cls, mtypes, installs in (
+            ("installComparator_c", "MockSupport::installComparator", "MockCFunctionComparatorNode", ("int (*)(void *, void *)", "char *(*)(void *)"),      # (member_by_type compares canonical types without const)
+             [("A", "eq1", "strA"), ("B", "eq1", "strB"), ("C", "eq2", "strA"), ("D", "eq1", "strA")]),
+            ("installCopier_c", "MockSupport::installCopier", "MockCFunctionCopierNode", ("void (*)(void *, void *)",), [("A", "cp1"), ("B", "cp2"), ("C", "cp1")])):
+        f = prog.fn(fname)
+        run.analysed(f)
+        members = [member_by_type(prog, cls, t_) for t_ in mtypes]
+        handed, ctr = [], None
+        state = {"currentMockSupport": 777, "comparatorList_": 0, "copierList_": 0}
+        try:
+            for inst in installs:
+                e_ = dict(state)
+                e_.update(dict(zip([q["name"] for q in f.params], [("str", inst[0])] + [("fn", x) for x in inst[1:]])))
+
+                def on_install(o, tname, obj, handed=handed, inst=inst):
+                    handed.append((inst, obj))
+                    return 0
+                ev = Evaluator(prog, f, env=e_, calls=string_hooks({cxx: on_install}))
+                ev.heap_mode = True
+                ev.pass_object = True
+                ev.objects = True
+                if ctr is not None:
+                    ev._newctr = ctr
+                ev.run_blocks(f.entry, max_steps=3000)
+                ctr = getattr(ev, "_newctr", ctr)
+                state = {k: v for k, v in ev.env.items() if k.startswith("@") or k in state}
+        except Unknown as u:
+            raise AnalysisBroken("C19.R4: %s cannot be folded over a sequence of installations: %s" % (fname, u))
+        why = ""
+        if len(handed) != len(installs) or any(not isinstance(o, int) or not o for i_, o in handed):
+            why = "%d installations hand %s to the C++ interface" % (len(installs), [o for i_, o in handed])
+        else:
+            for inst, obj in handed:
+                got = tuple(state.get("@%d.%s" % (obj, m)) for m in members)
+                if got != tuple(("fn", x) for x in inst[1:]):
+                    why = "after installing %s, the adaptor registered for type %s holds %s, the C functions given for that type are %s" % ([i_[0] for i_ in installs], inst[0], [g[1] if isinstance(g, tuple) else g for g in got], list(inst[1:]))
+                    break
+        run.ob("R4", "%s folded over %d installations (types sharing one of their C functions): each type's adaptor holds the C functions given for that type, also after the later installations" % (fname, len(installs)), f.site, not why,
+               witness=why or [i_[0] for i_ in installs], what="" if not why else "a value of that type is compared / printed / copied with another type's C function: the failure text differs from the C++ interface: " + why)
+
     f = prog.fn("MockCFunctionComparatorNode::isEqual")
     run.analysed(f)
     pn = [p["name"] for p in f.params]
